@@ -8,6 +8,8 @@ package c19
 
 import (
 	"context"
+	"crypto/sha256"
+	"encoding/hex"
 	"encoding/json"
 	"fmt"
 	"os"
@@ -54,8 +56,8 @@ type chain struct {
 }
 
 var (
-	chains  = map[int]*chain{}
-	chainMu sync.Mutex
+	chains   = map[int]*chain{}
+	chainMu  sync.Mutex
 	initYoda sync.Once
 )
 
@@ -137,10 +139,11 @@ type run struct {
 	c        *chain
 	maxTry   uint64
 	answers  map[string]execAnswer // "<rid>/<eid>" -> scripted executor answer
+	exeHash  map[string]string     // "<rid>/<eid>" -> sha256 of the executable the executor was given
 	fetchErr map[string]int        // data hash -> consecutive failed Data queries
 	lastFail map[string]bool       // query key -> previous attempt failed (request / data-source-hash queries)
-	fmu      sync.Mutex // guards the fakes' bookkeeping maps in the free-running pass
-	mu       sync.Mutex // guards msgs in the free-running (-race) pass; uncontended under the cooperative scheduler
+	fmu      sync.Mutex            // guards the fakes' bookkeeping maps in the free-running pass
+	mu       sync.Mutex            // guards msgs in the free-running (-race) pass; uncontended under the cooperative scheduler
 	msgs     []*oracletypes.MsgReportData
 	cacheDir string
 }
@@ -194,8 +197,10 @@ func (e fakeExec) Exec(exe []byte, arg string, env interface{}) (executor.ExecRe
 	m := env.(map[string]interface{})
 	key := fmt.Sprint(m["BAND_REQUEST_ID"], "/", m["BAND_EXTERNAL_ID"])
 	a := execAnswer(vsched.Env("executor", 3))
+	sum := sha256.Sum256(exe)
 	e.r.fmu.Lock()
 	e.r.answers[key] = a
+	e.r.exeHash[key] = hex.EncodeToString(sum[:])
 	e.r.fmu.Unlock()
 	switch a {
 	case execOK:
@@ -226,7 +231,7 @@ func scenario(name string, reqNames []string, maxTry uint64) gosched.Scenario {
 func scenarioS(name string, reqNames []string, startup []string, maxTry uint64) gosched.Scenario {
 	return gosched.Scenario{Name: name, New: func(worker int) (func(), func(*vsched.Sched) (string, []engine.Violation)) {
 		c := getChain(worker)
-		r := &run{c: c, maxTry: maxTry, answers: map[string]execAnswer{}, fetchErr: map[string]int{}, lastFail: map[string]bool{}}
+		r := &run{c: c, maxTry: maxTry, answers: map[string]execAnswer{}, exeHash: map[string]string{}, fetchErr: map[string]int{}, lastFail: map[string]bool{}}
 		lastRun = r
 		r.cacheDir = filepath.Join(os.Getenv("VERIF_BUILD"), "homes", fmt.Sprintf("h-%d-yoda-%d", os.Getpid(), atomic.AddInt64(&dirSeq, 1)))
 		if os.Getenv("VERIF_BUILD") == "" {
@@ -315,6 +320,10 @@ func scenarioS(name string, reqNames []string, startup []string, maxTry uint64) 
 					}
 					key := fmt.Sprint(id, "/", eid)
 					a, ran := r.answers[key]
+					// the executor must have been given the data source's own executable (its file name is the hash of its content)
+					if ran && r.exeHash[key] != c.dsHash[int64(rq.DataSourceID)] {
+						add("executor-run-with-wrong-executable", "request %s eid %d: executable with hash %.8s run for data source %d whose executable has hash %.8s", n, eid, r.exeHash[key], rq.DataSourceID, c.dsHash[int64(rq.DataSourceID)])
+					}
 					switch {
 					case !ran: // the executable could not be fetched (or the executor was never reached)
 						if rr.ExitCode != 255 {
